@@ -63,7 +63,9 @@ func runC08(c *sim.Ctx) *sim.Violation {
 		c.Count("probe.non-minimal-multi-byte-remaining-length")
 	}
 	mega := false
-	if t.Bool(1, 300) {
+	// runs 0 and 1 are the first thing the check process executes (spot check):
+	// any process-wide state of the library (a high-water mark, a pool) is fresh
+	if t.Bool(1, 300) || c.Run < 2 {
 		// a multi-megabyte PUBLISH: cuts at the seams of chunked readers
 		n := (1 + t.Int(5)) << 20
 		n += []int{0, 0, 1, -1, 4099}[t.Int(5)]
